@@ -990,13 +990,25 @@ pub mod implementations {
             .parse::<isize>()
             .context("jmp_not_nil needs lines_to_jump: isize")?;
 
-        if let Primitive::Optional(None) = primitive
+        // present: the value of `a or b` is the value *inside* the optional (built-ins such as
+        // `parse_int` return `Optional(Some(..))`; variables of optional type hold the bare value)
+        let present = match primitive
             .move_out_of_heap_primitive_borrow()
             .context("could not move out of heap primitive")?
             .as_ref()
         {
+            Primitive::Optional(None) => None,
+            Primitive::Optional(Some(inner)) => Some(Some(inner.as_ref().clone())),
+            _ => Some(None),
+        };
+
+        let Some(unwrapped) = present else {
             ctx.pop();
             return Ok(());
+        };
+
+        if let Some(value) = unwrapped {
+            ctx.set_last_op_item(value);
         }
 
         ctx.signal(InstructionExitState::Goto(lines_to_jump));
